@@ -45,7 +45,13 @@ impl<'a, 'b> InterpStack<'a, 'b> {
                         if let Some(ctx) = self.ctx.cel {
                             // Allow for loaded programs to run as values
                             if let Some(prog) = ctx.get_program(&name) {
-                                return self.ctx.run_raw(prog.bytecode(), true).map(|x| x.into());
+                                // A failing program is a failed operand like any other
+                                // (so `||` can absorb it); running out of depth still aborts.
+                                return match self.ctx.run_raw(prog.bytecode(), true) {
+                                    Ok(v) => Ok(v.into()),
+                                    Err(e) if Interpreter::is_depth_exceeded(&e) => Err(e),
+                                    Err(e) => Ok(CelValue::from_err(e).into()),
+                                };
                             }
                         }
 
@@ -94,6 +100,8 @@ impl<'a, 'b> fmt::Debug for InterpStack<'a, 'b> {
         write!(f, "{:?}", self.stack)
     }
 }
+
+const MAX_DEPTH_MSG: &str = "Max call depth excceded";
 
 pub struct Interpreter<'a> {
     cel: Option<&'a CelContext>,
@@ -149,7 +157,7 @@ impl<'a> Interpreter<'a> {
         let _vg = crate::verif::FrameGuard::enter(count.count(), || prog.iter().cloned().collect());
 
         if count.count() > 32 {
-            return Err(CelError::runtime("Max call depth excceded"));
+            return Err(CelError::runtime(MAX_DEPTH_MSG));
         }
 
         while pc < prog.len() {
@@ -580,6 +588,10 @@ impl<'a> Interpreter<'a> {
         } else {
             Err(CelError::value(&format!("{} is not callable", name)))
         }
+    }
+
+    fn is_depth_exceeded(err: &CelError) -> bool {
+        matches!(err, CelError::Runtime(msg) if msg == MAX_DEPTH_MSG)
     }
 
     fn checked_jump_target(pc: usize, dist: i32, len: usize) -> CelResult<usize> {
